@@ -230,8 +230,9 @@ class HostObservation(AbstractObservation, discriminator="host"):
             if self.nics:
                 obs["NICS"] = {i + 1: nic.observe(state) for i, nic in enumerate(self.nics)}
             if self.include_num_access:
-                obs["num_file_creations"] = node_state["file_system"]["num_file_creations"]
-                obs["num_file_deletions"] = node_state["file_system"]["num_file_deletions"]
+                # the space for these counts is Discrete(4): counts above 3 are reported as 3
+                obs["num_file_creations"] = min(node_state["file_system"]["num_file_creations"], 3)
+                obs["num_file_deletions"] = min(node_state["file_system"]["num_file_deletions"], 3)
             if self.include_users:
                 sess = node_state["services"]["user-session-manager"]
                 obs["users"] = {
